@@ -36,6 +36,18 @@ def rosenGrad (x : Vec α) : Vec α :=
     let t1 := if 1 ≤ i ∧ i < n then t0 + Scalar.ofRat 200 * rosenA x (i-1) else t0
     if i + 1 < n then t1 + (Scalar.ofRat (-400) * (rosenA x i * Vec.get x i) - Scalar.two * rosenC x i) else t1
 
+/-- Hessian of the Rosenbrock objective in the accumulation order of `Obj::evalDerivative(x, SecondOrderDerivative&)` -/
+def rosenHess (x : Vec α) : Mat α :=
+  let n := x.length
+  (List.range n).map fun i => (List.range n).map fun j =>
+    let z : α := Scalar.zero
+    if i = j then
+      let h := if 1 ≤ i then z + Scalar.ofRat 200 else z
+      if i + 1 < n then h + ((Scalar.ofRat (-400) * rosenA x i + Scalar.ofRat 800 * Vec.get x i * Vec.get x i) + Scalar.two) else h
+    else if j = i + 1 then z + Scalar.ofRat (-400) * Vec.get x i
+    else if i = j + 1 then z + Scalar.ofRat (-400) * Vec.get x j
+    else z
+
 def boxFeasible (l u : Vec α) (p : Vec α) : Bool :=
   let eps : α := Scalar.ofRat (1 / 10000000000000)
   (List.zip p (List.zip l u)).all fun (pi, li, ui) => !(decide (pi + eps < li)) && !(decide (ui < pi - eps))
@@ -50,5 +62,8 @@ def mkObjective (kind : ObjKind) (A : Mat α) (b : Vec α) (box : Option (Vec α
   match box with
   | none => { f := f, grad := g, feasible := fun _ => true, constrained := false, lower := [], upper := [] }
   | some (l, u) => { f := f, grad := g, feasible := boxFeasible l u, constrained := true, lower := l, upper := u }
+
+def mkHessian (kind : ObjKind) (A : Mat α) : Vec α → Mat α :=
+  match kind with | .quad => fun _ => A | .rosen => rosenHess
 
 end SharkVerif.Opt
